@@ -25,7 +25,7 @@ def sh(cmd, **kw):
 
 
 def evaluate(mdir, tier, all_checks, skip_tests, seed):
-    mdir = Path(mdir)
+    mdir = Path(mdir).resolve()
     meta = json.load(open(mdir / "meta.json"))
     prop = meta["property"]
     wt = Path(f"/dev/shm/rv-mut-{os.getpid()}-{mdir.parent.name}-{mdir.name}")
